@@ -7,6 +7,7 @@ import (
 	_ "verifharness/mon/c03"
 	_ "verifharness/mon/c05"
 	_ "verifharness/mon/c06"
+	_ "verifharness/mon/c07"
 	_ "verifharness/mon/c10"
 	_ "verifharness/mon/c11"
 	_ "verifharness/mon/c14"
